@@ -23,14 +23,13 @@ class Target:
     def __init__(self, name, fqn=None, mod=None, qual=None, kind="function", self_cls=None, params=None,
                  requires=(), ensures=(), raises=None, raises_default=None, no_raise=None, loops=None,
                  local_types=None, setup=None, allow_exc=None, assert_mode=None, modifies=None, node=None,
-                 unchecked_exc=(), reveal=()):
-        self.reveal = set(reveal)
+                 unchecked_exc=(), reveal=(), ghost=(), ghost_init=None, dead=()):
         self.name, self.mod, self.qual, self.kind, self.self_cls = name, mod, qual, kind, self_cls
         self.params = dict(params or {})      # name -> Ty (parameters not listed take their default value)
         self.requires, self.ensures = list(requires), list(ensures)
         self.raises = dict(raises or {})      # exc class -> [specs] that must hold on that exceptional exit
         self.raises_default = raises_default  # [specs] for every other exception; None => such exits are violations
-        self.no_raise = no_raise              # list of exception classes that must be unreachable
+        self.no_raise = no_raise
         self.loops = dict(loops or {})
         self.local_types = dict(local_types or {})
         self.setup = setup                    # callable(engine, path, env) run after parameter creation
@@ -38,6 +37,20 @@ class Target:
         self.modifies = modifies
         self.node = node
         self.unchecked_exc = set(unchecked_exc)
+        self.reveal = set(reveal)
+        self.ghost = list(ghost)              # (statement text, 'before'|'after', ghost code)
+        self.ghost_init = ghost_init          # ghost code run at function entry
+        self.dead = list(dead)                # first-line source text of statements declared unreachable under `requires`
+
+    def is_declared_dead(self, lineno):
+        fnode = getattr(self, "_fnode", None)
+        if fnode is None or not self.dead:
+            return False
+        for n in ast.walk(fnode):
+            if isinstance(n, ast.stmt) and n.lineno <= lineno <= n.end_lineno and any(
+                    d in ast.unparse(n).splitlines()[0] for d in self.dead):
+                return True
+        return False
 
 
 class Engine(ExprMixin, StmtMixin, CallMixin, BuiltinMixin, EngineBase):
@@ -55,6 +68,8 @@ class Engine(ExprMixin, StmtMixin, CallMixin, BuiltinMixin, EngineBase):
         self.add_class(ClassDecl("dict[?]"))
         self.add_class(ClassDecl("set[?]"))
         self.unsupported: dict[str, str] = {}
+        self.lemmas = []
+        self.type_aliases = {"optint": TOpt(INT), "optstr": TOpt(STR)}
 
     # ---------------------------------------------------------------- spec language
     def spec_fn(self, src: str):
@@ -159,13 +174,18 @@ class Engine(ExprMixin, StmtMixin, CallMixin, BuiltinMixin, EngineBase):
                 guards.append(z3.And(z3.Select(self.alloc_arr(p), v.z), self.is_instance(v.z, v.cls)))
         saved = self.spec_env
         self.spec_env = {**saved, **env}
+        n0 = len(p.pc)
         try:
             res = self.ev(lam.body, p)
         finally:
             self.spec_env = saved
         (q, bv), = res
         body = self.truth(bv, p)
-        g = z3.And(guards) if guards else z3.BoolVal(True)
+        # typing facts learnt while evaluating the body (they may mention the bound variables) are globally true in
+        # the typed-heap model: they become antecedents inside the quantifier instead of path assumptions
+        facts = p.pc[n0:]
+        del p.pc[n0:]
+        g = z3.And(guards + facts) if (guards or facts) else z3.BoolVal(True)
         if is_forall:
             return [(p, VBool(z3.ForAll(bound, z3.Implies(g, body))))]
         return [(p, VBool(z3.Exists(bound, z3.And(g, body))))]
@@ -220,6 +240,10 @@ class Engine(ExprMixin, StmtMixin, CallMixin, BuiltinMixin, EngineBase):
     def sp_typeis(self, node, p):
         cls = node.args[1].id
         return self.bind(self.ev(node.args[0], p), lambda q, v: [(q, VBool(self.is_instance(v.z, cls)))])
+
+    def sp_IntSeq(self, node, p):
+        """IntSeq(a, b, ...): an immutable integer sequence literal (possibly empty) for ghost code."""
+        return self.bind(self.ev_list(node.args, p), lambda q, vs: [(q, VSeq.of([coerce(v, INT) for v in vs], INT))])
 
     def sp_some(self, node, p):
         """some(x): the payload of an optional (meaningful only where `x is not None` is also stated)."""
@@ -302,6 +326,9 @@ class Engine(ExprMixin, StmtMixin, CallMixin, BuiltinMixin, EngineBase):
     def _verify_target(self, t: Target):
         fn = FnDecl(f"{t.mod}.{t.qual}" + ("#setter" if t.kind == "setter" else ""), "inline", t.mod, t.qual, t.kind,
                     loops=t.loops, local_types=t.local_types)
+        fn.ghost = t.ghost
+        fn.ghost_init = t.ghost_init
+        fn._ghost_hits = set()
         if t.node is not None:
             fn.node = t.node
             fn.mod = None
@@ -352,6 +379,7 @@ class Engine(ExprMixin, StmtMixin, CallMixin, BuiltinMixin, EngineBase):
         results = self.inline(p, fn, fnode, t.mod, args, kwargs, fnode, cls=fn.owner_cls)
         nret = nexc = 0
         for q, r in results:
+            self.terminal(q, "raise " + r.cls if isinstance(r, Exc) else "return")
             fr2 = Frame(fn, t.mod, fn.owner_cls)
             q.frames.append(fr2)
             if isinstance(r, Exc):
@@ -376,12 +404,21 @@ class Engine(ExprMixin, StmtMixin, CallMixin, BuiltinMixin, EngineBase):
             else:
                 nret += 1
                 env2 = dict(env)
+                env2.update(q.ghost.get("$exit_ghost", {}))
                 env2["result"] = r
                 for i, s in enumerate(t.ensures):
-                    self.oblige(q, self.spec_bool(s, q, env2), "post", f"#{i}/path{nret}")
+                    goal = self.spec_bool(s, q, env2)
+                    self.oblige(q, goal, "post", f"#{i}/path{nret}")
+                    q.assume(goal)     # proved in order: earlier postconditions serve as lemmas for later ones
             q.frames.pop()
         self.target_results.setdefault(t.name, {})
         t._paths = (nret, nexc)
+        t._fn_fqn = fn.fqn
+        t._fnode = fnode
+        t._stmt_lines = sorted({n.lineno for n in _own_statements(fnode)})
+        for g in t.ghost:
+            if (g[0], g[1]) not in fn._ghost_hits:
+                raise Unsupported(f"ghost anchor not found in {t.name}: {g[0]!r} (the code changed shape; the contract must be re-anchored)")
 
     def vacuity_check(self, p: Path, t: Target):
         s = z3.Solver()
@@ -395,9 +432,41 @@ class Engine(ExprMixin, StmtMixin, CallMixin, BuiltinMixin, EngineBase):
         ob.backend = "z3-sat-check"
         self.obligations.append(ob)
 
+    def add_lemma(self, name, statement, reveal=()):
+        """A lemma over spec predicates: proved once with the listed definitions revealed, then available to every
+        other obligation as a hypothesis with the predicates opaque."""
+        self.lemmas.append((name, statement, set(reveal)))
+
+    def _run_lemmas(self):
+        for name, statement, reveal in self.lemmas:
+            self.cur_target = "lemma:" + name
+            p = Path()
+            p.frames.append(Frame(None, None))
+            self.alloc_arr(p)
+            self.revealed = set(reveal)
+            goal = self.spec_bool(statement, p, {})
+            self.oblige(p, goal, "lemma", "")
+            self.revealed = set()
+            hyp = self.spec_bool(statement, p, {})
+            self.axioms.append(hyp)
+            self.target_results["lemma:" + name] = {"status": "generated", "obligations": 1}
+        self.cur_target = None
+
     def run(self):
+        self._run_lemmas()
         for t in self.targets:
             self.verify_target(t)
+
+
+def _own_statements(fnode):
+    """Statements of the function body (nested defs included: closures are executed when called)."""
+    import ast as _ast
+    from . import extract as _ex
+    body = _ex.strip_docstring(fnode.body)
+    for st in body:
+        for n in _ast.walk(st):
+            if isinstance(n, _ast.stmt) and not (isinstance(n, _ast.Expr) and isinstance(n.value, _ast.Constant)):
+                yield n
 
 
 def _has_q(e):
